@@ -172,6 +172,15 @@ const HAND: &[&str] = &[
     "<a><b></a></b>",
     "<a x=\"1\" x=\"2\"/>",
     "<a x=\"1\" x='2'/>",
+    "<a x=\"1\" y=\"2\" x=\"3\"/>",
+    "<a x=\"1\" y=\"2\" z=\"3\" x=\"4\"></a>",
+    "<a xmlns:p=\"u\" b=\"1\" xmlns:p=\"v\"/>",
+    "<a xmlns=\"u\" b=\"1\" xmlns=\"v\"/>",
+    "<a p:x=\"1\" y=\"2\" p:x=\"3\" xmlns:p=\"u\"/>",
+    "<a>x]]]>y</a>",
+    "<a>if (a[b[c[0]]]>d) {}</a>",
+    "<!DOCTYPE a [<!ENTITY l \"&c1;\"><!ENTITY c1 \"&c2;\"><!ENTITY c2 \"&c1;\">]><a>&l;</a>",
+    "<!DOCTYPE a [<!ENTITY l \"&c1;\"><!ENTITY c1 \"&c2;\"><!ENTITY c2 \"&c1;\">]><a b=\"&l;\"/>",
     "<a x=\"<\"/>",
     "<a x=\"&\"/>",
     "<a>&</a>",
